@@ -319,25 +319,31 @@ type fetchDef struct {
 	ds       string // datasource id == name
 	q        string // root field
 	mutation bool
+	kind     string // "": query (or mutation when mutation is set); "subscription"; "unknown"
 }
 
 type planDef struct {
 	name     string
 	reqID    uint64
 	mutation bool
+	kind     string // "": query (or mutation when mutation is set); "subscription"; "unknown"
 	parallel bool
 	fetches  []fetchDef
 	fields   [][2]string // response name, upstream field
 }
 
 var planDefs = map[string]planDef{
-	"A":  {name: "A", reqID: 1001, fetches: []fetchDef{{ds: "S", q: "s"}}, fields: [][2]string{{"s", "s"}}},
-	"B":  {name: "B", reqID: 1002, parallel: true, fetches: []fetchDef{{ds: "S", q: "s"}, {ds: "T", q: "t"}}, fields: [][2]string{{"s", "s"}, {"t", "t"}}},
-	"C":  {name: "C", reqID: 1003, fetches: []fetchDef{{ds: "S2", q: "s"}}, fields: [][2]string{{"s", "s"}}},
-	"D":  {name: "D", reqID: 1004, fetches: []fetchDef{{ds: "S", q: "s"}}, fields: [][2]string{{"renamed", "s"}}},
-	"E":  {name: "E", reqID: 1005, fetches: []fetchDef{{ds: "T", q: "t"}, {ds: "S", q: "s"}}, fields: [][2]string{{"t", "t"}, {"s", "s"}}},
-	"M":  {name: "M", reqID: 1006, mutation: true, fetches: []fetchDef{{ds: "M", q: "m", mutation: true}}, fields: [][2]string{{"m", "m"}}},
-	"MQ": {name: "MQ", reqID: 1007, mutation: true, fetches: []fetchDef{{ds: "M", q: "m", mutation: true}, {ds: "S", q: "s"}}, fields: [][2]string{{"m", "m"}, {"s", "s"}}},
+	"A": {name: "A", reqID: 1001, fetches: []fetchDef{{ds: "S", q: "s"}}, fields: [][2]string{{"s", "s"}}},
+	"B": {name: "B", reqID: 1002, parallel: true, fetches: []fetchDef{{ds: "S", q: "s"}, {ds: "T", q: "t"}}, fields: [][2]string{{"s", "s"}, {"t", "t"}}},
+	"C": {name: "C", reqID: 1003, fetches: []fetchDef{{ds: "S2", q: "s"}}, fields: [][2]string{{"s", "s"}}},
+	"D": {name: "D", reqID: 1004, fetches: []fetchDef{{ds: "S", q: "s"}}, fields: [][2]string{{"renamed", "s"}}},
+	"E": {name: "E", reqID: 1005, fetches: []fetchDef{{ds: "T", q: "t"}, {ds: "S", q: "s"}}, fields: [][2]string{{"t", "t"}, {"s", "s"}}},
+	"M": {name: "M", reqID: 1006, mutation: true, fetches: []fetchDef{{ds: "M", q: "m", mutation: true}}, fields: [][2]string{{"m", "m"}}},
+	// operations that are neither query nor mutation (Info.OperationType subscription / unknown, the
+	// zero value); their fetch carries the same type. Never eligible for any sharing.
+	"SUB": {name: "SUB", reqID: 1008, kind: "subscription", fetches: []fetchDef{{ds: "S", q: "s", kind: "subscription"}}, fields: [][2]string{{"s", "s"}}},
+	"UNK": {name: "UNK", reqID: 1009, kind: "unknown", fetches: []fetchDef{{ds: "S", q: "s", kind: "unknown"}}, fields: [][2]string{{"s", "s"}}},
+	"MQ":  {name: "MQ", reqID: 1007, mutation: true, fetches: []fetchDef{{ds: "M", q: "m", mutation: true}, {ds: "S", q: "s"}}, fields: [][2]string{{"m", "m"}, {"s", "s"}}},
 }
 
 type plan struct {
@@ -353,6 +359,12 @@ func (w *world) buildPlan(def planDef) *plan {
 		ot := ast.OperationTypeQuery
 		if f.mutation {
 			ot = ast.OperationTypeMutation
+		}
+		switch f.kind {
+		case "subscription":
+			ot = ast.OperationTypeSubscription
+		case "unknown":
+			ot = ast.OperationTypeUnknown
 		}
 		sf := &resolve.SingleFetch{
 			FetchConfiguration: resolve.FetchConfiguration{
@@ -385,6 +397,12 @@ func (w *world) buildPlan(def planDef) *plan {
 	ot := ast.OperationTypeQuery
 	if def.mutation {
 		ot = ast.OperationTypeMutation
+	}
+	switch def.kind {
+	case "subscription":
+		ot = ast.OperationTypeSubscription
+	case "unknown":
+		ot = ast.OperationTypeUnknown
 	}
 	return &plan{def: def, resp: &resolve.GraphQLResponse{Info: &resolve.GraphQLResponseInfo{OperationType: ot}, Fetches: tree, Data: obj}}
 }
